@@ -41,8 +41,8 @@ impl Typstyle {
         } else {
             return Err(Error::SyntaxError);
         };
-        // Infer indent from context.
-        let indent = utils::count_spaces_after_last_newline(source.text(), range.start);
+        // Infer indent from context: the indentation of the line on which the node starts.
+        let indent = utils::count_spaces_after_last_newline(source.text(), node.range().start);
         let res = doc
             .nest(indent as isize)
             .pretty(self.config.max_width)
